@@ -474,18 +474,18 @@ Section C04.
     rewrite <- X. unfold next_seq, sget. rewrite St. reflexivity.
   Qed.
 
-  Lemma G_exec env s a s' : inv4 s -> act_noself (st_name s) a -> exec P env s a = Ok s' -> G s s'.
+  (** no hypothesis on the operation: HandleCreateClient refuses the chain's own name (fix a9e74e1), ToggleClient and
+      UpgradeClient need an existing client — so [noself] (a conjunct of [inv4]) is preserved by EVERY operation *)
+  Lemma G_exec env s a s' : inv4 s -> exec P env s a = Ok s' -> G s s'.
   Proof.
-    intros I NS.
-    destruct a as [m cb|m cb1 cb2 cb3|cb|name ok| |name c ok|name c ok|addr chains addrs]; cbn [exec]; intro H.
+    intros I.
+    destruct a as [m cb|m cb1 cb2 cb3|cb|name ok| |name c ok|name c ok|addr chains addrs|name c ok]; cbn [exec]; intro H.
     - eapply G_recv_handler; eauto.
     - eapply G_ack_handler; eauto.
     - destruct (cb_fail cb); [discriminate|]. eapply G_hook; eauto.
     - destruct ok; inversion H; subst; apply G_refl; exact I.
     - inversion H; subst; apply G_refl; exact I.
-    - unfold register_client in H. destruct (valid_name P name) eqn:Vn; cbn in H; [|discriminate].
-      destruct (aget name (st_clients s)); [discriminate|]. destruct ok; inversion H; subst.
-      cbn in NS.
+    - apply register_client_ok in H as (Vn & Nn & _ & H); subst s'.
       split; [apply noself_clients; assumption|]. split; [reflexivity|]. split; [intros d k _ A; exact A|].
       intros d _. apply gap_same_store; reflexivity.
     - unfold toggle_client in H. destruct (valid_name P name) eqn:Vn; cbn in H; [|discriminate].
@@ -498,17 +498,17 @@ Section C04.
     - inversion H; subst.
       split; [exact I|]. split; [reflexivity|]. split; [intros d k _ A; exact A|].
       intros d _. apply gap_same_store; reflexivity.
+    - apply upgrade_client_ok in H; subst s'. apply G_refl; exact I.
   Qed.
 
   Definition ops_noself (name : bytes) (ops : list op) : Prop := Forall (fun o => act_noself name (snd o)) ops.
 
-  Lemma G_run ops : forall s, inv4 s -> ops_noself (st_name s) ops -> G s (run P s ops).
+  Lemma G_run ops : forall s, inv4 s -> G s (run P s ops).
   Proof.
-    induction ops as [|o ops IH]; intros s I NS; cbn [run]; [apply G_refl; exact I|].
-    inversion NS as [|o' ops' No Nops]; subst.
+    induction ops as [|o ops IH]; intros s I; cbn [run]; [apply G_refl; exact I|].
     unfold step. destruct (deliver P (fst o) s (snd o)) as [s'| |] eqn:E0; [apply deliver_ok in E0 as E| |]; cbn [fst]; try (apply IH; assumption).
-    pose proof (G_exec _ _ _ _ I No E) as G1.
-    eapply G_trans; [exact G1|]. apply IH; [apply G1|]. destruct G1 as (_ & -> & _). exact Nops.
+    pose proof (G_exec _ _ _ _ I E) as G1.
+    eapply G_trans; [exact G1|]. apply IH. apply G1.
   Qed.
 
   (** *** C05.ack_processed_once *)
@@ -524,14 +524,13 @@ Section C04.
   Qed.
 
   Theorem ack_processed_once env s m cb1 cb2 cb3 s1 ops env' m' cb1' cb2' cb3' :
-    inv4 s -> exec P env s (AAck m cb1 cb2 cb3) = Ok s1 -> ops_noself (st_name s) ops ->
+    inv4 s -> exec P env s (AAck m cb1 cb2 cb3) = Ok s1 ->
     triple_of (fst (decode P (am_packet m'))) = triple_of (fst (decode P (am_packet m))) ->
     step P (run P s1 ops) (env', AAck m' cb1' cb2' cb3') = (run P s1 ops, false).
   Proof.
-    intros I E NS T. cbn [exec] in E.
+    intros I E T. cbn [exec] in E.
     destruct (G_ack_handler _ _ _ _ _ _ _ I E) as [(I1 & Nm & _) A1].
-    assert (NS1 : ops_noself (st_name s1) ops) by (rewrite Nm; exact NS).
-    destruct (G_run ops s1 I1 NS1) as (I2 & _ & A2 & _).
+    destruct (G_run ops s1 I1) as (I2 & _ & A2 & _).
     apply ack_rejected_if_acked; [exact I2|].
     unfold triple_of in T. inversion T as [[T1 T2 T3]]. rewrite T2, T3.
     apply A2; [|exact A1].
@@ -541,7 +540,7 @@ Section C04.
 
   (** *** C04.send_gap_free *)
   Theorem send_gap_free ops s d :
-    inv4 s -> ops_noself (st_name s) ops -> valid_name P d = true ->
+    inv4 s -> valid_name P d = true ->
     inv4 (run P s ops) /\
     exists l n0 n,
       slog (run P s ops) = slog s ++ l /\
@@ -551,7 +550,7 @@ Section C04.
       n = (n0 + N.of_nat (length (sent_seqs d l))) mod two64 /\
       (forall k, sget (ckey P (st_name s, d, k)) (run P s ops) <> None -> k < n \/ n = 0).
   Proof.
-    intros I NS Vd. destruct (G_run ops s I NS) as (I' & Nm & _ & Gp).
+    intros I Vd. destruct (G_run ops s I) as (I' & Nm & _ & Gp).
     split; [exact I'|].
     destruct (Gp d Vd) as (_ & l & L & H).
     pose proof I as (_ & _ & _ & _ & CS). pose proof (CS d Vd) as N0.
@@ -596,13 +595,13 @@ Section C04.
   Qed.
 
   Lemma acklog_exec env s a s' :
-    inv4 s -> act_noself (st_name s) a -> acklog_ok s -> exec P env s a = Ok s' -> acklog_ok s'.
+    inv4 s -> acklog_ok s -> exec P env s a = Ok s' -> acklog_ok s'.
   Proof.
-    intros I NS AL H. pose proof (G_exec _ _ _ _ I NS H) as (_ & _ & AK & _).
+    intros I AL H. pose proof (G_exec _ _ _ _ I H) as (_ & _ & AK & _).
     assert (Same : (forall j d k, cnt (ackev j d k) (slog s') = cnt (ackev j d k) (slog s)) -> acklog_ok s').
     { intros E j d k Vd. rewrite E. destruct (AL j d k Vd) as [A1 A2]. split; [exact A1|].
       intro X. apply AK; [exact Vd | apply A2; exact X]. }
-    destruct a as [m cb|m cb1 cb2 cb3|cb|name ok| |name c ok|name c ok|addr chains addrs]; cbn [exec] in H.
+    destruct a as [m cb|m cb1 cb2 cb3|cb|name ok| |name c ok|name c ok|addr chains addrs|name c ok]; cbn [exec] in H.
     - apply Same. intros j d k. apply (recv_handler_cnt _ _ _ _ _ _ (ackev_blind j d k)) in H; [exact H | |];
         intros; destruct j as [|[|[|j]]]; reflexivity.
     - pose proof (G_ack_handler _ _ _ _ _ _ _ I H) as [_ A0].
@@ -631,27 +630,33 @@ Section C04.
       apply (hook_sends_cnt P _ _ (ackev_blind j d k) _ _ H).
     - apply Same. destruct ok; inversion H; subst; reflexivity.
     - apply Same. inversion H; subst; reflexivity.
-    - apply Same. unfold register_client in H. destruct (valid_name P name); cbn in H; [|discriminate].
-      destruct (aget name (st_clients s)); [discriminate|]. destruct ok; inversion H; subst. reflexivity.
+    - apply Same. apply register_client_ok in H as (Vn & Nn & _ & H); subst s'. reflexivity.
     - apply Same. unfold toggle_client in H. destruct (valid_name P name); cbn in H; [|discriminate].
       destruct (aget name (st_clients s)) as [c0|]; [|discriminate].
       destruct (c0 =? c); [discriminate|]. destruct ok; inversion H; subst. reflexivity.
     - apply Same. inversion H; subst. reflexivity.
+    - apply Same. apply upgrade_client_ok in H; subst s'. reflexivity.
   Qed.
 
-  Lemma acklog_run ops : forall s, inv4 s -> ops_noself (st_name s) ops -> acklog_ok s -> acklog_ok (run P s ops).
+  Lemma acklog_run ops : forall s, inv4 s -> acklog_ok s -> acklog_ok (run P s ops).
   Proof.
-    induction ops as [|o ops IH]; intros s I NS AL; cbn [run]; [exact AL|].
-    inversion NS as [|o' ops' No Nops]; subst.
+    induction ops as [|o ops IH]; intros s I AL; cbn [run]; [exact AL|].
     unfold step. destruct (deliver P (fst o) s (snd o)) as [s'| |] eqn:E0; [apply deliver_ok in E0 as E| |]; cbn [fst]; try (apply IH; assumption).
-    pose proof (G_exec _ _ _ _ I No E) as (I' & Nm & _).
-    apply IH; [exact I' | rewrite Nm; exact Nops | eapply acklog_exec; [exact I | exact No | exact AL | exact E]].
+    pose proof (G_exec _ _ _ _ I E) as (I' & Nm & _).
+    apply IH; [exact I' | eapply acklog_exec; [exact I | exact AL | exact E]].
   Qed.
 
+  Theorem ack_effects_once ops s j d k :
+    inv4 s -> acklog_ok s -> valid_name P d = true ->
+    (cnt (ackev j d k) (slog (run P s ops)) <= 1)%nat.
+  Proof. intros I AL Vd. apply (acklog_run ops s I AL j d k Vd). Qed.
+
+  (** the statement with the premise [ops_noself] that was needed before fix a9e74e1 (no longer used by Props/;
+      kept under its old name because Proofs/BridgePacket.v of C03 applies it) *)
   Theorem ack_effects_at_most_once ops s j d k :
     inv4 s -> ops_noself (st_name s) ops -> acklog_ok s -> valid_name P d = true ->
     (cnt (ackev j d k) (slog (run P s ops)) <= 1)%nat.
-  Proof. intros I NS AL Vd. apply (acklog_run ops s I NS AL j d k Vd). Qed.
+  Proof. intros I _. apply ack_effects_once; exact I. Qed.
 
 
   (** ** C04: a stored commitment of ours keeps its value until exactly that packet is acknowledged *)
@@ -693,7 +698,7 @@ Section C04.
                            ack_verified P env s m).
   Proof.
     intros I H Hv.
-    destruct a as [m cb|m cb1 cb2 cb3|cb|name ok| |name c ok|name c ok|addr chains addrs]; cbn [exec] in H.
+    destruct a as [m cb|m cb1 cb2 cb3|cb|name ok| |name c ok|name c ok|addr chains addrs|name c ok]; cbn [exec] in H.
     - left. apply recv_handler_ok in H. cbv zeta in H.
       set (p := fst (decode P (rm_packet m))) in *.
       destruct H as (s1 & relayer & RK & _ & _ & Hc).
@@ -734,11 +739,11 @@ Section C04.
       apply (hook_keeps_c _ _ _ I H); [eexists; reflexivity | exact Hv].
     - left. destruct ok; inversion H; subst; exact Hv.
     - left. inversion H; subst; exact Hv.
-    - left. unfold register_client in H. destruct (valid_name P name); cbn in H; [|discriminate].
-      destruct (aget name (st_clients s)); [discriminate|]. destruct ok; inversion H; subst. exact Hv.
+    - left. apply register_client_ok in H as (Vn & Nn & _ & H); subst s'. exact Hv.
     - left. unfold toggle_client in H. destruct (valid_name P name); cbn in H; [|discriminate].
       destruct (aget name (st_clients s)) as [c0|]; [|discriminate].
       destruct (c0 =? c); [discriminate|]. destruct ok; inversion H; subst. exact Hv.
     - left. inversion H; subst. exact Hv.
+    - left. apply upgrade_client_ok in H; subst s'. exact Hv.
   Qed.
 End C04.
